@@ -18,7 +18,7 @@ MANIFEST = dict(
          'set of close call sites (kernel-checked equality with the sites the model reaches), by the extracted close-once guard of '
          'netFD.Close (one atomic read-modify-write is the only access to the counter), and by an strace audit of real lifecycles '
          '(echo, shutdown, Detach, failed registration, listeners, dial failures before and after connect, kernel self-connect in a '
-         'private network namespace, pool grow/shrink/reset, several goroutines closing one netFD at the same instant, descriptor '
+         'private network namespace, pool grow/shrink/reset, Initialize() racing the first Picks after a reconfiguration, several goroutines closing one netFD at the same instant, descriptor '
          'limits) whose event sequences are judged by the Lean monitors and replayed through the model.',
     note='Trusted: Lean kernel; axioms propext/Classical.choice/Quot.sound; extractor; strace, the harness markers and the log parser; '
          'npdriver. Assumed: other goroutines close only their own descriptors; numbers 0-2 are never handed to netpoll; nothing-left '
@@ -40,7 +40,7 @@ MIRRORED = ('netFD.Close', 'listener.Close', 'listener.Accept', 'listener.parseF
             'connection.initFinalizer', 'connection.Detach', 'connection.register', 'connection.onPrepare', 'NewFDConnection',
             'server.Close', 'server.onAccept', 'newNetFD',
             # the pool that sends every poller its close request (model: Netpoll.Manager, theorem C15_pool_closes_every_poller)
-            'manager.Run', 'manager.Close', 'manager.Reset')
+            'manager.Run', 'manager.Close', 'manager.Reset', 'manager.Pick', 'Initialize')
 EXPECTED_FP = os.path.join(common.VERIF, 'lib', 'expected_fp_c15.json')
 PROBES = {}   # scenario -> (id of the known finding it exhibits, descriptors left); none at present (F1, F2 are fixed: a leak there is a violation)
 
